@@ -53,8 +53,19 @@ BUILTINS = {
     '__builtin_clzl': lambda a: (64 - a[0].bit_length()) if a[0] > 0 else _undef('clzl(0)'),
     '__builtin_clz': lambda a: (32 - a[0].bit_length()) if a[0] > 0 else _undef('clz(0)'),
     '__builtin_ctzll': lambda a: ((a[0] & -a[0]).bit_length() - 1) if a[0] > 0 else _undef('ctzll(0)'),
+    '__builtin_ctzl': lambda a: ((a[0] & -a[0]).bit_length() - 1) if a[0] > 0 else _undef('ctzl(0)'),
     '__builtin_ctz': lambda a: ((a[0] & -a[0]).bit_length() - 1) if a[0] > 0 else _undef('ctz(0)'),
     '__builtin_expect': lambda a: a[0],
+    '__builtin_popcountll': lambda a: bin(a[0] & M64).count('1'),
+    '__builtin_popcountl': lambda a: bin(a[0] & M64).count('1'),
+    '__builtin_popcount': lambda a: bin(a[0] & 0xFFFFFFFF).count('1'),
+    '_blsr_u64': lambda a: a[0] & (a[0] - 1) & M64,
+    '__blsr_u64': lambda a: a[0] & (a[0] - 1) & M64,
+    '__tzcnt_u64': lambda a: ((a[0] & -a[0]).bit_length() - 1) if a[0] else 64,
+    '__lzcnt64': lambda a: 64 - a[0].bit_length(),
+    '_lzcnt_u64_': lambda a: 64 - a[0].bit_length(),
+    '_tzcnt_u64': lambda a: ((a[0] & -a[0]).bit_length() - 1) if a[0] else 64,
+    '_lzcnt_u64': lambda a: 64 - a[0].bit_length(),
     'max': lambda a: max(a[0], a[1]),
     'min': lambda a: min(a[0], a[1]),
 }
